@@ -2,4 +2,6 @@ import GfaModel.Regex
 import GfaModel.Util.Digits
 import GfaModel.Cigar
 import GfaModel.CigarText
+import GfaModel.Geometry
+import GfaModel.GeometrySpec
 import GfaModel.Driver
